@@ -50,7 +50,7 @@ def state_of(p, cp=None, stdout=None):
 
 
 def run_path(text, method="collect", policy=None, delimiter=",", quotechar='"',
-             nexts=None, want_stdout=False, csvpaths=None):
+             nexts=None, want_stdout=False, csvpaths=None, pre=None):
     """Parse + run `text` on a fresh CsvPath.  Returns dict with 'lines' (or None),
     'raised' (json or None) and the state tuple."""
     buf = io.StringIO()
@@ -60,6 +60,8 @@ def run_path(text, method="collect", policy=None, delimiter=",", quotechar='"',
         lines = None
         raised = None
         try:
+            if pre is not None:
+                pre(p)
             p.parse(text)
             if method == "collect":
                 if nexts is None:
